@@ -19,15 +19,17 @@ import PdProps.C11
 
 namespace Privacy
 
-/-- every object of the chain `[ob, ob.parent, …]` is, when asked in turn, classified and not HIDDEN -/
+/-- every object of the chain `[ob, ob.parent, …]` is, when asked in turn, classified and not HIDDEN, and
+every object but the outermost is the entry of its parent's `contents` -/
 def allShown (rules : List Rule) : Cache → List Obj → Prop
   | _, [] => True
   | c, ob :: ps =>
-    ∃ l, (privacyClass rules c ob).1 = .ok l ∧ l ≠ .hidden ∧ allShown rules (privacyClass rules c ob).2 ps
+    ∃ l, (privacyClass rules c ob).1 = .ok l ∧ l ≠ .hidden ∧ (ps ≠ [] → ob.inContents = true) ∧
+      allShown rules (privacyClass rules c ob).2 ps
 
 /-- **C12** `Documentable.isVisible` answers `True` exactly when the object and every one of its
-containers is classified as something else than HIDDEN: a hidden module, package or class hides
-everything inside it. -/
+containers is classified as something else than HIDDEN (and none of them is a superseded definition): a
+hidden module, package or class hides everything inside it. -/
 theorem hidden_inherits (rules : List Rule) : ∀ (obs : List Obj) (c : Cache),
     (isVisible rules c obs).1 = .ok true ↔ allShown rules c obs := by
   intro obs
@@ -45,14 +47,23 @@ theorem hidden_inherits (rules : List Rule) : ∀ (obs : List Obj) (c : Cache),
         by_cases hl : l = .hidden
         · subst hl; simp
         · simp only [ne_eq, hl, not_false_eq_true, if_true]
-          rw [ih c1]
-          constructor
-          · intro h; exact ⟨l, rfl, hl, h⟩
-          · rintro ⟨l', h1, _, h3⟩; exact h3
+          cases ps with
+          | nil => simp [allShown, hl]
+          | cons p ps' =>
+            by_cases hc : ob.inContents = true
+            · simp only [hc, if_true]
+              rw [ih c1]
+              constructor
+              · intro h; exact ⟨l, rfl, hl, fun _ => trivial, h⟩
+              · rintro ⟨l', _, _, _, h4⟩; exact h4
+            · simp only [hc]
+              constructor
+              · intro h; simp at h
+              · rintro ⟨l', _, _, h3, _⟩; exact absurd (h3 (by simp)) (by simp)
 
 /-- non-vacuity: a public module with a public class is visible; hide the module and the class is not -/
-example : (isVisible [] [] [⟨['m', '.', 'K'], ['K'], false, false⟩, ⟨['m'], ['m'], true, false⟩]).1 = .ok true := by decide
-example : (isVisible [⟨.hidden, ['m']⟩] [] [⟨['m', '.', 'K'], ['K'], false, false⟩, ⟨['m'], ['m'], true, false⟩]).1
+example : (isVisible [] [] [⟨['m', '.', 'K'], ['K'], false, false, true⟩, ⟨['m'], ['m'], true, false, true⟩]).1 = .ok true := by decide
+example : (isVisible [⟨.hidden, ['m']⟩] [] [⟨['m', '.', 'K'], ['K'], false, false, true⟩, ⟨['m'], ['m'], true, false, true⟩]).1
     = .ok false := by decide
 
 end Privacy
@@ -85,42 +96,48 @@ theorem hidden_inside {s : Sys} (w : WF s) {a i : Nat} (hd : Desc s a i) (hh : (
   | false => rfl
   | true => exact absurd hh (visible_not_hidden (visible_of_desc w hd hv))
 
-/-- **C12, rows with a visibility guard.** For every producer row whose code path tests `isVisible`
-(member tables, package tables, inherited-member tables, member details, sidebar, heading, known
-subclasses, "overridden in", the source base of "Inherited from", module index below the roots, class
-index, name index, undocumented summary, all-documents) no mention of an object that is hidden — or
-inside a hidden one — is produced. -/
-theorem no_trace {s : Sys} (w : WF s) {e : Emit} (h : e ∈ emits s) (hg : e.row.guardVisible = true) :
-    visible s e.target = true := by
+/-- what the code path of an entry row establishes about its target: visible, except for the two rows
+that iterate `rootobjects` without a guard -/
+theorem entry_visible {s : Sys} {r : Emit} (h : r ∈ requests s) (he : r.row.isEntry = true)
+    (hroot : r.row.rootRow = false) : visible s r.target = true := by
   have ho := origin h
-  have pagesV : ∀ p, p ∈ pages s → visible s p = true := fun p hp => visible_of_mem_pages hp
-  cases hrow : e.row <;> rw [hrow] at hg <;> (first | exact absurd hg (by decide) | skip) <;>
+  cases hrow : r.row <;> rw [hrow] at he hroot <;>
+    (first | exact absurd he (by decide) | exact absurd hroot (by decide) | skip) <;>
     simp only [Origin, hrow] at ho
   case table => exact ho.2.2.1
   case initTable => exact ho.2.2.1
   case baseTable => exact ho.2.2
   case detail => exact ho.2.1
-  case sidebarTitle =>
-    obtain ⟨_, p, hp, _, ht⟩ := ho
-    rcases ht with ht | ht | ht
-    · exact ht ▸ pagesV p hp
-    · exact visible_parent ht (pagesV p hp)
-    · exact chain_visible _ _ _ (module_in_chain w (visible_lt (pagesV p hp)) ht).1 (pagesV p hp)
   case sidebarItem => exact ho.2.2.1
   case sidebarInherited => exact ho.2.2
-  case heading =>
-    obtain ⟨_, _, p, hp, _, ht⟩ := ho
-    exact chain_visible _ _ _ ht (pagesV p hp)
-  case knownSub => exact ho.2
-  case overriddenIn => exact ho.2
-  case baseName =>
-    obtain ⟨_, a, ha, hv⟩ := ho
-    exact visible_parent (w.contents_parent _ a ha) hv
   case modIndex => exact ho.2.2.1
   case classIndex => exact ho.2
   case nameIndex => exact ho.2
   case undoc => exact ho.2
   case allDocs => exact ho.2.2
+
+/-- **C12, every producer row.** Since aaed9bd `taglink` builds no hyperlink to an object that is not
+visible, whoever calls it; and every listing element (table row, member details, sidebar item, index
+entry, search document) is written for a visible object only — with one exception, the rows of the *roots*
+in moduleIndex.html and index.html, which are written (name as plain text) even for a hidden root.
+So: a mention of an object that is hidden, or inside a hidden one, is never a hyperlink, and is one of
+those two root rows. -/
+theorem no_trace {s : Sys} {e : Emit} (h : e ∈ emits s) :
+    visible s e.target = true ∨ (e.linked = false ∧ e.row.rootRow = true) := by
+  rcases mem_emits h with ⟨_, hv⟩ | ⟨hl, hv, r, hr, he, hrow, ht, _⟩
+  · exact .inl hv
+  · cases hroot : e.row.rootRow with
+    | true => exact .inr ⟨hl, rfl⟩
+    | false =>
+      have := entry_visible hr he (hrow ▸ hroot)
+      rw [ht, hv] at this
+      cases this
+
+/-- no hyperlink anywhere targets an object that is not visible -/
+theorem no_trace_links {s : Sys} {e : Emit} (h : e ∈ emits s) (hl : e.linked = true) : visible s e.target = true := by
+  rcases no_trace h with hv | ⟨hf, _⟩
+  · exact hv
+  · rw [hl] at hf; cases hf
 
 /-- **C12** a hidden object (or anything inside one) has no page file, no anchor, no search document
 and no inventory line -/
@@ -140,141 +157,73 @@ theorem no_trace_files {s : Sys} (w : WF s) {i : Nat} (hi : i < s.n) (hv : visib
     have := ((mem_reached_iff w i).mp h).2
     rw [hv] at this; cases this
 
+/-- the marker of an emitted listing entry is the one its row's code path computes -/
+theorem marker_of {s : Sys} {e : Emit} (h : e ∈ emits s) (hl : e.row.listing = true) :
+    e.marked = some (if e.row = .sidebarItem ∨ e.row = .sidebarInherited ∨ e.row = .modIndexRoot ∨ e.row = .modIndex
+                     then isPrivate s e.target else cssPrivate s e.target) := by
+  have key : ∀ r : Emit, r ∈ requests s → r.row.listing = true →
+      r.marked = some (if r.row = .sidebarItem ∨ r.row = .sidebarInherited ∨ r.row = .modIndexRoot ∨ r.row = .modIndex
+                     then isPrivate s r.target else cssPrivate s r.target) := by
+    intro r hr hlr
+    have ho := origin hr
+    cases hrow : r.row <;> rw [hrow] at hlr <;> (first | exact absurd hlr (by decide) | skip) <;>
+      simp only [Origin, hrow] at ho
+    case table => rw [ho.2.1]; simp
+    case initTable => rw [ho.2.1]; simp
+    case baseTable => rw [ho.2.1]; simp
+    case detail => rw [ho.1]; simp
+    case sidebarItem => rw [ho.2.1]; simp
+    case sidebarInherited => rw [ho.2.1]; simp
+    case modIndexRoot => rw [ho.2.1]; simp
+    case modIndex => rw [ho.2.1]; simp
+    case allDocs => rw [ho.2.1]; simp [cssPrivate]
+  rcases mem_emits h with ⟨hr, _⟩ | ⟨_, _, r, hr, _, hrow, ht, hm⟩
+  · exact key e hr hl
+  · have := key r hr (hrow ▸ hl)
+    rw [← hm, ← hrow, ← ht]
+    exact this
+
 /-- **C12** every listing entry (member tables incl. inherited and package tables, member details,
 sidebar, module index, all-documents / search documents) of a PRIVATE object carries the `private`
 marker -/
 theorem private_marked {s : Sys} {e : Emit} (h : e ∈ emits s) (hl : e.row.listing = true)
     (hp : (s.ob e.target).privacy = .priv) : e.marked = some true := by
-  have ho := origin h
-  cases hrow : e.row <;> rw [hrow] at hl <;> (first | exact absurd hl (by decide) | skip) <;>
-    simp only [Origin, hrow] at ho
-  case table => rw [ho.2.1]; simp [cssPrivate, hp]
-  case initTable => rw [ho.2.1]; simp [cssPrivate, hp]
-  case baseTable => rw [ho.2.1]; simp [cssPrivate, hp]
-  case detail => rw [ho.1]; simp [cssPrivate, hp]
-  case sidebarItem => rw [ho.2.1]; simp [isPrivate, hp]
-  case sidebarInherited => rw [ho.2.1]; simp [isPrivate, hp]
-  case modIndexRoot => rw [ho.2.1]; simp [isPrivate, hp]
-  case modIndex => rw [ho.2.1]; simp [isPrivate, hp]
-  case allDocs => rw [ho.2.1]; simp [hp]
+  rw [marker_of h hl]
+  split <;> simp [isPrivate, cssPrivate, hp]
 
 /-- and a PUBLIC object is never marked in those listings -/
 theorem public_unmarked {s : Sys} {e : Emit} (h : e ∈ emits s) (hl : e.row.listing = true)
     (hp : (s.ob e.target).privacy = .pub) : e.marked = some false := by
-  have ho := origin h
-  cases hrow : e.row <;> rw [hrow] at hl <;> (first | exact absurd hl (by decide) | skip) <;>
-    simp only [Origin, hrow] at ho
-  case table => rw [ho.2.1]; simp [cssPrivate, hp]
-  case initTable => rw [ho.2.1]; simp [cssPrivate, hp]
-  case baseTable => rw [ho.2.1]; simp [cssPrivate, hp]
-  case detail => rw [ho.1]; simp [cssPrivate, hp]
-  case sidebarItem => rw [ho.2.1]; simp [isPrivate, hp]
-  case sidebarInherited => rw [ho.2.1]; simp [isPrivate, hp]
-  case modIndexRoot => rw [ho.2.1]; simp [isPrivate, hp]
-  case modIndex => rw [ho.2.1]; simp [isPrivate, hp]
-  case allDocs => rw [ho.2.1]; simp [hp]
+  rw [marker_of h hl]
+  split <;> simp [isPrivate, cssPrivate, hp]
 
-/-! ### the rows without a guard -/
+/-! ### what is still false of the current code: rows that name a hidden object in an index -/
 
-/-- no root is hidden, and no visible object refers to a hidden one through the unguarded constructs:
-cross-references of its displayed docstring, annotation / signature links, class-signature
-expressions, constructors, classes of its MRO (via-bases), members it overrides -/
-def noHiddenRefs (s : Sys) : Bool :=
-  s.roots.all (visible s)
-  && (List.range s.n).all fun o =>
-      !visible s o ||
-        ((s.ob o).xrefs.all (visible s) && (s.ob o).annrefs.all (visible s) && (s.ob o).ctors.all (visible s)
-          && (s.ob o).sigrefs.all (fun t => match t with | none => true | some t => visible s t)
-          && (s.ob o).mro.all (visible s)
-          && ((s.ob o).mro.drop 1).all fun b =>
-              ((s.ob o).name :: (methods s o).map fun c => (s.ob c).name).all fun nm =>
-                match member s b nm with
-                | none => true
-                | some t => visible s t)
-
-/-- **C12, all producer rows, under an explicit hypothesis.**
-The full statement is FALSE of the current code (DESIGN §8-11, `no_trace_counterexample`):
--- theorem no_trace_all (w : WF s) : ∀ e ∈ emits s, visible s e.target = true
-`taglink` only logs "don't link to …" for a target that is not visible; rows 7, 9, 5 (via), 13 (roots),
-16, 20, 22 of the producer table call it without a guard of their own. -/
-theorem no_trace_partial {s : Sys} (w : WF s) (hn : noHiddenRefs s = true) {e : Emit} (h : e ∈ emits s) :
+/-- **C12, all mentions, under an explicit hypothesis.** The full statement
+-- theorem no_trace_all : ∀ e ∈ emits s, visible s e.target = true
+is FALSE of the current code: `ModuleIndexPage.stuff` and `IndexPage.roots` iterate `rootobjects` without
+a visibility test; `taglink` refuses the link, the row (with the root's name, and in moduleIndex.html its
+summary) is written all the same (`no_trace_counterexample_root`, known finding). It holds when no root
+is hidden. -/
+theorem no_trace_partial {s : Sys} (hroots : s.roots.all (visible s) = true) {e : Emit} (h : e ∈ emits s) :
     visible s e.target = true := by
-  cases hg : e.row.guardVisible with
-  | true => exact no_trace w h hg
-  | false =>
-    have ho := origin h
-    simp only [noHiddenRefs, Bool.and_eq_true, List.all_eq_true, List.mem_range, Bool.or_eq_true,
-      Bool.not_eq_true'] at hn
-    obtain ⟨hroots, hobj⟩ := hn
-    have refs : ∀ o, visible s o = true →
-        (∀ t ∈ (s.ob o).xrefs, visible s t = true) ∧ (∀ t ∈ (s.ob o).annrefs, visible s t = true) ∧
-        (∀ t ∈ (s.ob o).ctors, visible s t = true) ∧
-        (∀ t ∈ (s.ob o).sigrefs, (match t with | none => true | some t => visible s t) = true) ∧
-        (∀ t ∈ (s.ob o).mro, visible s t = true) ∧
-        (∀ b ∈ (s.ob o).mro.drop 1, ∀ nm ∈ ((s.ob o).name :: (methods s o).map fun c => (s.ob c).name),
-            (match member s b nm with | none => true | some t => visible s t) = true) := by
-      intro o hv
-      rcases hobj o (visible_lt hv) with h | h
-      · rw [hv] at h; cases h
-      · obtain ⟨⟨⟨⟨⟨h1, h2⟩, h3⟩, h4⟩, h5⟩, h6⟩ := h
-        exact ⟨h1, h2, h3, h4, h5, h6⟩
-    have shownV : ∀ pg o, Shown s pg o → visible s o = true := by
-      rintro pg o ⟨p, hp, _, ho | ho⟩
-      · exact ho ▸ visible_of_mem_pages hp
-      · exact (mem_methods.mp ho).2.2
-    cases hrow : e.row <;> rw [hrow] at hg <;> (first | exact absurd hg (by decide) | skip) <;>
-      simp only [Origin, hrow] at ho
-    case classSig =>
-      obtain ⟨_, p, hp, ht⟩ := ho
-      exact (refs p (visible_of_mem_pages hp)).2.2.2.1 _ ht
-    case overrides =>
-      obtain ⟨_, p, hp, b, nm, hb, hm, hnm⟩ := ho
-      have := (refs p (visible_of_mem_pages hp)).2.2.2.2.2 b hb nm (by
-        rcases hnm with rfl | ⟨c, hc, rfl⟩
-        · exact List.mem_cons_self
-        · exact List.mem_cons_of_mem _ (List.mem_map.mpr ⟨c, hc, rfl⟩))
-      rw [hm] at this
-      exact this
-    case baseVia =>
-      obtain ⟨_, p, hp, ht⟩ := ho
-      exact (refs p (visible_of_mem_pages hp)).2.2.2.2.1 _ ht
-    case docXref =>
-      obtain ⟨o, hs, ht, _⟩ := ho
-      exact (refs o (shownV _ _ hs)).1 _ ht
-    case annXref =>
-      obtain ⟨o, _, hs, ht, _⟩ := ho
-      exact (refs o (shownV _ _ hs)).2.1 _ ht
-    case extraInfo =>
-      obtain ⟨_, p, hp, ht⟩ := ho
-      exact (refs p (visible_of_mem_pages hp)).2.2.1 _ ht
-    case sumCopy =>
-      obtain ⟨_, o, hv, ht⟩ := ho
-      exact (refs o hv).1 _ ht
-    case classIndexSum =>
-      obtain ⟨_, o, hv, ht⟩ := ho
-      exact (refs o hv).1 _ ht
-    case allDocsSum =>
-      obtain ⟨_, o, hv, ht⟩ := ho
-      exact (refs o hv).1 _ ht
-    case modIndexSum =>
-      obtain ⟨_, o, hv, ht⟩ := ho
-      have hvo : visible s o = true := by
-        rcases hv with hv | hv
-        · exact hv
-        · exact hroots o hv
-      exact (refs o hvo).1 _ ht
-    case modIndexRoot => exact hroots _ ho.2.2
-    case indexRoots => exact hroots _ ho.2
+  rcases mem_emits h with ⟨_, hv⟩ | ⟨_, hv, r, hr, he, hrow, ht, _⟩
+  · exact hv
+  · cases hroot : r.row.rootRow with
+    | false =>
+      have := entry_visible hr he hroot
+      rw [ht, hv] at this; cases this
+    | true =>
+      have ho := origin hr
+      have hmem : r.target ∈ s.roots := by
+        cases hr' : r.row <;> rw [hr'] at hroot <;> (first | exact absurd hroot (by decide) | skip) <;>
+          simp only [Origin, hr'] at ho
+        case modIndexRoot => exact ho.2.2
+        case indexRoots => exact ho.2
+      have := List.all_eq_true.mp hroots _ hmem
+      rw [ht, hv] at this; cases this
 
-/-- DESIGN §8-11 on the model: `class V(_H)` with `_H` hidden — the class signature of the visible `V`
-links the hidden class; the hypothesis of `no_trace_partial` is what fails. -/
-theorem no_trace_counterexample :
-    wf sHidden = true ∧ noHiddenRefs sHidden = false ∧
-    ((emits sHidden).any fun e => e.row == .classSig && e.target == 1 && !visible sHidden e.target) = true := by
-  decide
-
-/-- two roots, one hidden: index.html and moduleIndex.html link it (rows 13 and 16 have no guard at
-the root) -/
+/-- two roots, one hidden: moduleIndex.html and index.html still have a row for it -/
 def sHiddenRoot : Sys :=
   { objs := [ mkObj ['a'] .module none .hidden [], { mkObj ['b'] .module none .pub [] with modul := some 1 } ],
     all := [0, 1], roots := [0, 1], depth := 1, nosidebar := false }
@@ -282,17 +231,154 @@ def sHiddenRoot : Sys :=
 theorem no_trace_counterexample_root :
     wf sHiddenRoot = true ∧ visible sHiddenRoot 0 = false ∧
     ([Row.indexRoots, Row.modIndexRoot].all fun r =>
-      (emits sHiddenRoot).any fun e => e.row == r && e.target == 0) = true := by
+      (emits sHiddenRoot).any fun e => e.row == r && e.target == 0 && !e.linked) = true ∧
+    -- no hyperlink to it any more (aaed9bd)
+    (emits sHiddenRoot).all (fun e => !(e.target == 0 && e.linked)) = true := by
+  decide
+
+/-- the unlinked root nodes of classIndex.html name no object that is not visible, *provided* no listed
+class has a base that is not visible, or an unresolved base expression that expands to the qualified name
+of an object that is not visible -/
+def noHiddenBaseNames (s : Sys) : Bool :=
+  (classes s).all fun c =>
+    hasSpace (s.ob c).name || !visible s c ||
+      ((s.ob c).baseNames.zip (s.ob c).bases).all fun nb =>
+        match nb.2 with
+        | some b => visible s b
+        | none => (List.range s.n).all fun i => fullName s i != nb.1 || visible s i
+
+/-- every key of the `roots` dict that holds a list names visible objects only -/
+def RootsNamed (s : Sys) (r : Roots) : Prop :=
+  ∀ kv, kv ∈ r → ∀ l, kv.2 = .many l → ∀ i, i < s.n → fullName s i = kv.1 → visible s i = true
+
+theorem rset_named {s : Sys} {r : Roots} {k : List Char} {v : RootVal} (hr : RootsNamed s r)
+    (hv : ∀ l, v = .many l → ∀ i, i < s.n → fullName s i = k → visible s i = true) : RootsNamed s (rset r k v) := by
+  induction r with
+  | nil =>
+    intro kv hkv l hl i hi hf
+    simp only [rset, List.mem_singleton] at hkv
+    subst hkv
+    exact hv l hl i hi hf
+  | cons x r ih =>
+    obtain ⟨k', v'⟩ := x
+    intro kv hkv l hl i hi hf
+    simp only [rset] at hkv
+    split at hkv
+    · rename_i hk
+      rcases List.mem_cons.mp hkv with h | h
+      · subst h; exact hv l hl i hi (hk ▸ hf)
+      · exact hr kv (List.mem_cons_of_mem _ h) l hl i hi hf
+    · rcases List.mem_cons.mp hkv with h | h
+      · exact hr kv (h ▸ List.mem_cons_self) l hl i hi hf
+      · exact ih (fun kv hkv => hr kv (List.mem_cons_of_mem _ hkv)) kv h l hl i hi hf
+
+theorem addBase_named {s : Sys} {r : Roots} {nm : List Char} {c : Nat} (hr : RootsNamed s r)
+    (hnm : ∀ i, i < s.n → fullName s i = nm → visible s i = true) : RootsNamed s (addBase r nm c) := by
+  unfold addBase
+  split <;> exact rset_named hr (fun _ _ => hnm)
+
+theorem rootStep_named {s : Sys} (w : WF s) (hn : noHiddenBaseNames s = true) {r : Roots} {c : Nat}
+    (hc : c ∈ classes s) (hr : RootsNamed s r) : RootsNamed s (rootStep s r c) := by
+  unfold rootStep
+  split
+  · exact hr
+  · rename_i hcv
+    simp only [Bool.or_eq_true, Bool.not_eq_true', not_or, Bool.not_eq_true, Bool.not_eq_false] at hcv
+    have hv : visible s c = true := hcv.2
+    have hself : ∀ i, i < s.n → fullName s i = fullName s c → visible s i = true := by
+      intro i hi hf
+      rw [w.names i c hi (visible_lt hv) hf]; exact hv
+    split
+    · split
+      · exact rset_named hr (fun _ _ => hself)
+      · exact rset_named hr (fun _ _ => hself)
+    · have hall : ∀ nb, nb ∈ (s.ob c).baseNames.zip (s.ob c).bases →
+          (match nb.2 with
+            | some b => visible s b
+            | none => (List.range s.n).all fun i => fullName s i != nb.1 || visible s i) = true := by
+        have := List.all_eq_true.mp hn c hc
+        simp only [Bool.or_eq_true, Bool.not_eq_true'] at this
+        rcases this with (h | h) | h
+        · rw [hcv.1] at h; cases h
+        · rw [hv] at h; cases h
+        · exact List.all_eq_true.mp h
+      revert hall
+      generalize ((s.ob c).baseNames.zip (s.ob c).bases) = l
+      intro hall
+      induction l generalizing r with
+      | nil => exact hr
+      | cons nb l ih =>
+        simp only [List.foldl_cons]
+        apply ih
+        · have h1 := hall nb List.mem_cons_self
+          cases hb : nb.2 with
+          | none =>
+            simp only [hb] at h1 ⊢
+            apply addBase_named hr
+            intro i hi hf
+            have := List.all_eq_true.mp h1 i (List.mem_range.mpr hi)
+            simp only [Bool.or_eq_true, bne_iff_ne, ne_eq] at this
+            rcases this with h | h
+            · exact absurd hf h
+            · exact h
+          | some b =>
+            simp only [hb] at h1 ⊢
+            simp [h1, hr]
+        · intro nb' hnb'; exact hall nb' (List.mem_cons_of_mem _ hnb')
+
+theorem foldl_rootStep_named {s : Sys} (w : WF s) (hn : noHiddenBaseNames s = true) :
+    ∀ (l : List Nat) (r : Roots), (∀ c, c ∈ l → c ∈ classes s) → RootsNamed s r →
+      RootsNamed s (l.foldl (rootStep s) r) := by
+  intro l
+  induction l with
+  | nil => intro r _ h; exact h
+  | cons c l ih =>
+    intro r hsub h
+    simp only [List.foldl_cons]
+    exact ih _ (fun c hc => hsub c (List.mem_cons_of_mem _ hc))
+      (rootStep_named w hn (hsub c List.mem_cons_self) h)
+
+theorem findRootClasses_named {s : Sys} (w : WF s) (hn : noHiddenBaseNames s = true) :
+    RootsNamed s (findRootClasses s) := by
+  unfold findRootClasses
+  exact foldl_rootStep_named w hn _ _ (fun _ h => h) (by intro kv h; simp at h)
+
+/-- **C12, class index root names, under an explicit hypothesis.** The full statement is FALSE of the
+current code (`no_trace_texts_counterexample`, known finding `hidden-trace:classindex-root-name`):
+`findRootClasses` groups the subclasses of a base that is not visible under an unlinked node showing the
+base's qualified name. -/
+theorem no_trace_texts_partial {s : Sys} (w : WF s) (hn : noHiddenBaseNames s = true) {nm : Name} {m : Bool}
+    (h : (nm, m) ∈ classIndexTexts s) {i : Nat} (hi : i < s.n) (hf : fullName s i = nm) : visible s i = true := by
+  unfold classIndexTexts at h
+  obtain ⟨kv, hkv, hh⟩ := List.mem_filterMap.mp h
+  cases hv : kv.2 with
+  | one c => simp [hv] at hh
+  | many l =>
+    simp only [hv, Option.some.injEq, Prod.mk.injEq] at hh
+    exact findRootClasses_named w hn kv hkv l hv i hi (hh.1 ▸ hf)
+
+/-- `class V(_H)` with `_H` hidden: classIndex.html has the unlinked root node `m._H` -/
+theorem no_trace_texts_counterexample :
+    wf sHidden = true ∧ visible sHidden 1 = false ∧ fullName sHidden 1 = ['m', '.', '_', 'H'] ∧
+    (classIndexTexts sHidden).any (fun x => x.1 == ['m', '.', '_', 'H']) = true ∧
+    noHiddenBaseNames sHidden = false := by
+  decide
+
+/-- historical (DESIGN §8-11, before aaed9bd): the class signature of the visible `V` linked the hidden
+`_H`; now no hyperlink targets it -/
+theorem no_trace_counterexample_old :
+    wf sHidden = true ∧ visible sHidden 1 = false ∧
+    ((requests sHidden).any fun e => e.row == .classSig && e.target == 1) = true ∧
+    (emits sHidden).all (fun e => e.target != 1) = true := by
   decide
 
 /-! ### non-vacuity -/
 
 /-- a private class in a public module: listed (and marked) in the module's table, the sidebar, the
-search documents; `noHiddenRefs` holds -/
-example : wf sPlain = true ∧ noHiddenRefs sPlain = true ∧
+search documents -/
+example : wf sPlain = true ∧ noHiddenBaseNames sPlain = true ∧ sPlain.roots.all (visible sPlain) = true ∧
     ((emits sPlain).filter fun e => e.row.listing && e.target == 1).length = 4 ∧
-    ((emits sPlain).filter fun e => e.row.listing && e.target == 1).all (fun e => e.marked == some true) = true ∧
-    ((emits sPlain).filter fun e => e.row.guardVisible).length = 24 := by
+    ((emits sPlain).filter fun e => e.row.listing && e.target == 1).all (fun e => e.marked == some true) = true := by
   decide
 example : visible sHidden 1 = false ∧ pageFile sHidden 1 ∉ written sHidden ∧ (1 : Nat) ∉ searchDocs sHidden := by decide
 
